@@ -38,8 +38,17 @@ def scalar_fields(idx, rec):
     return out
 
 
-def ctor_initialised(idx, ctor, field):
+def ctor_initialised(idx, ctor, field, _depth=0):
     """How (or None) a constructor initialises the field."""
+    for ini in ctor.inits:
+        if ini.get('delegatingInit') and _depth < 4:
+            # a delegating constructor: the target constructor initialises the members
+            ce = next((x for x in walk(ini) if x.get('kind') == 'CXXConstructExpr'), None)
+            ct = ((ce or {}).get('ctorType') or {}).get('qualType', '').strip()
+            rec = idx.records.get(ctor.cls) if getattr(ctor, 'cls', None) else None
+            for c2 in (rec.ctors if rec is not None else []):
+                if c2 is not ctor and c2.type.strip() == ct:
+                    return ctor_initialised(idx, c2, field, _depth + 1)
     for ini in ctor.inits:
         a = ini.get('anyInit') or {}
         if a.get('id') == field['id'] or (a.get('kind') == 'FieldDecl' and a.get('name') == field['name']):
